@@ -539,7 +539,16 @@ Definition ref_ok (want : refkind) (r : ref_out) : bool :=
   | RFound KMsg _, KMsg | RFound KEnum _, KEnum => true
   | _, _ => false
   end.
-Definition int_rules_ok (r : int_rules) : bool := negb (bad_int_rules r).
+(* integer rules (schema.proto IntegerField.Rules: minimum, maximum, exclusive_minimum, exclusive_maximum), read
+   independently of buildField: an exclusive flag qualifies a bound, so it is meaningful only next to that bound
+   (whatever its value); the bounds must be values of the format and must leave a value (minimum <= maximum).
+   (buildField's own test differs: it rejects `exclusiveMinimum = false` without a minimum and silently ignores
+   `exclusiveMinimum = true` without one; rules.multipleOf is documented but rejected since /repo c0895b5: the
+   abstract rule record has no slot for it, the gap is a known: line and a declaration-matrix case) *)
+Definition flag_needs_bound (flag : option bool) (bound : bool) : bool :=
+  match flag with Some _ => bound | None => true end.
+Definition int_rules_ok (r : int_rules) : bool :=
+  flag_needs_bound (ir_xmin r) (ir_min r) && flag_needs_bound (ir_xmax r) (ir_max r) && negb (ir_bad r).
 Definition fty_in_language (t : fty) : bool :=
   match t with
   | TObject r _ _ => ref_ok KMsg r
